@@ -182,8 +182,11 @@ class _RemotePathMapper:
                     available=True,
                 )
             )
-            if location.path in node.valid_paths.get(location.deployment, {}).get(
-                location.name, set()
+            if any(
+                loc.path == location.path and loc.data_type != DataType.INVALID
+                for loc in node.locations.get(location.deployment, {}).get(
+                    location.name, []
+                )
             ):
                 break
             else:
@@ -308,7 +311,7 @@ class DefaultDataManager(DataManager):
     def register_relation(
         self, src_location: DataLocation, dst_location: DataLocation
     ) -> None:
-        for data_location in self.path_mapper.get(path=src_location.path):
+        for data_location in self.get_data_locations(path=src_location.path):
             self.path_mapper.put(data_location.path, dst_location)
             self.path_mapper.put(dst_location.path, data_location)
 
